@@ -18,24 +18,32 @@ Registered == Rng(Data.registered)
 Clause(name, cond) == IF cond THEN TRUE ELSE PrintT(<<"REJECT", tid, l + 1, name>>)
 Clause1(name, cond) == IF cond THEN TRUE ELSE PrintT(<<"REJECT", tid, 1, name>>)
 
+\* the python mirror of Parse (used alone for megabyte bodies) agrees with Parse on this stream
+PyAgrees(rec, P) == /\ rec.pyok = (P.ok /\ ~P.lenient)
+                    /\ rec.pyok => rec.pyused = P.used
+
 \* list of <<clause name, condition>> for one record
 Judge(rec) ==
   CASE rec.kind = "mkchunks" ->
          LET P == Parse(rec.stream) IN
          << <<"valid_framing", ValidChunked(rec.stream)>>,
-            <<"lossless", P.ok /\ P.body = Body(rec.n, rec.pat)>> >>
+            <<"lossless", P.ok /\ P.body = Body(rec.n, rec.pat)>>,
+            <<"harness_parser_agrees", PyAgrees(rec, P)>> >>
     [] rec.kind = "dechunk" ->
          LET P == Parse(rec.stream) IN
          << <<"terminates:" \o (IF P.ok THEN "valid" ELSE P.why), rec.res # "spin">>,
             <<"valid_decoded", (P.ok /\ ~P.lenient) => (rec.res = "spin" \/ (rec.res = "body" /\ rec.body = P.body))>>,
             <<"lenient_consistent", (P.ok /\ P.lenient) => (rec.res # "body" \/ rec.body = P.body)>>,
-            <<"rejects:" \o P.why, ~P.ok => rec.res # "body">> >>
+            <<"rejects:" \o P.why, ~P.ok => rec.res # "body">>,
+            <<"harness_parser_agrees", PyAgrees(rec, P)>> >>
     [] rec.kind = "exchange" ->
          << <<"exchange_completes", rec.res = "ok">>,
             <<"request_lossless", rec.res = "ok" => rec.delivered = "same">>,
             <<"response_lossless", rec.res = "ok" => rec.returned = "same">>,
-            <<"request_framing_valid", rec.req_chunked => ValidChunked(rec.req_stream)>>,
-            <<"response_framing_valid", rec.resp_chunked => ValidChunked(rec.resp_stream)>> >>
+            <<"request_framing_headers", FramingHeadersOK(rec.req_te, rec.req_cl, rec.req_len)>>,
+            <<"response_framing_headers", rec.res = "ok" => FramingHeadersOK(rec.resp_te, rec.resp_cl, rec.resp_len)>>,
+            <<"request_framing_valid", rec.req_te => ValidChunked(rec.req_stream)>>,
+            <<"response_framing_valid", rec.resp_te => ValidChunked(rec.resp_stream)>> >>
     [] rec.kind = "coding" ->
          << <<"coding:" \o rec.damage \o ":" \o ExpectedCoding(rec, Registered),
               CodingOutcomeOK(ExpectedCoding(rec, Registered), rec.actual)>> >>
@@ -48,8 +56,8 @@ Judge(rec) ==
             <<"lossless", rec.same>>,
             <<"terminates", rec.res # "spin">> >>
 
-JudgeInit(rec) == \A i \in DOMAIN Judge(rec) : Clause1(Judge(rec)[i][1], Judge(rec)[i][2])
-JudgeNext(rec) == \A i \in DOMAIN Judge(rec) : Clause(Judge(rec)[i][1], Judge(rec)[i][2])
+JudgeInit(rec) == LET J == Judge(rec) IN \A i \in DOMAIN J : Clause1(J[i][1], J[i][2])
+JudgeNext(rec) == LET J == Judge(rec) IN \A i \in DOMAIN J : Clause(J[i][1], J[i][2])
 
 TraceInit == /\ tid \in 1..Len(Traces)
              /\ l = 1
